@@ -30,7 +30,10 @@ use core::cell::Cell;
 use core::ptr;
 use core::slice::Iter;
 use core::sync::atomic::Ordering::*;
+#[cfg(not(arc_swap_verif))]
 use core::sync::atomic::{AtomicPtr, AtomicUsize};
+#[cfg(arc_swap_verif)]
+use verif_rt::atomic::{AtomicPtr, AtomicUsize};
 
 #[cfg(feature = "experimental-thread-local")]
 use core::cell::OnceCell;
@@ -332,9 +335,20 @@ impl Drop for LocalNode {
     }
 }
 
+#[cfg(not(arc_swap_verif))]
 #[cfg(not(feature = "experimental-thread-local"))]
 thread_local! {
     /// A debt node assigned to this thread.
+    static THREAD_HEAD: LocalNode = LocalNode {
+        node: Cell::new(None),
+        fast: FastLocal::default(),
+        helping: HelpingLocal::default(),
+    };
+}
+
+#[cfg(arc_swap_verif)]
+verif_rt::thread_local! {
+    /// A debt node assigned to this (simulated) thread.
     static THREAD_HEAD: LocalNode = LocalNode {
         node: Cell::new(None),
         fast: FastLocal::default(),
